@@ -78,6 +78,8 @@ func (sess *hopSession) checkIntent(intent authgrants.Intent, principalCert *cer
 // checks if the session has an auth grant to perform cmd
 func (sess *hopSession) checkCmd(cmd string, shell bool) (sessID, error) {
 	logrus.Info("target: received request to perform: ", cmd)
+	sess.authorizedActionsLock.Lock()
+	defer sess.authorizedActionsLock.Unlock()
 	for i, ag := range sess.authorizedActions {
 		// A grant is usable from its start time until (excluding) its expiry.
 		now := thunks.TimeNow()
